@@ -61,6 +61,9 @@ func init() {
 			}
 			su := drawWorkload(rng, tier, seed, 3, nb)
 			su.Knobs.MaxGas = drawMaxGas(rng)
+			if rng.Intn(2) == 0 {
+				su.Sess.M["olvm-blockhash"] = true // every replica has the same block store: BLOCKHASH is comparable
+			}
 			k := su.Knobs
 			su.Replicas = append(su.Replicas, core.ReplicaConf{Identity: "x0", Quiet: true, Recent: 10, Every: 100, Cycles: 10, WitnessInitEarly: true})
 			n := 2 + rng.Intn(2)
